@@ -5,7 +5,8 @@ HARNESS = 'harness/c17.py'
 TRUSTED_BASE = [
     'Lean 4.33 kernel; axioms propext, Classical.choice, Quot.sound only (audited per theorem each run)',
     'hand-written model lean/PysphVerif/Model/Reorder.lean, tied to the code by exact differential execution '
-    '(index lists of all 8 classes, re-ordered arrays of all properties) in harness/c17.py',
+    '(index lists of all 8 classes, re-ordered arrays of all properties the array has at the time of each re-order) '
+    'in harness/c17.py',
     'the map particle -> cell id / Morton key / packed key / octant digits is recomputed by the harness from the '
     'positions and the public geometry of the search structure (xmin, cell_size, ncells_per_dim, octree node boxes); '
     'the theorems hold for every such map within the stated ranges (geometry is C01\'s subject)',
@@ -17,6 +18,9 @@ ASSUMPTIONS = [
     'cell ids are inside the structure (cid < n_cells, octant < 8, n < 2^I): holds on every generated cloud, checked per run',
     'inputs the search structures are not defined for are skipped: >= leaf_max coincident points (octrees), '
     'zero x/y extent (CellIndexing), a zero-extent cloud in 1D/2D (linked list; finding C17:ll-coincident-lowdim)',
+    'histories: after the particle count changed the structure is brought up to date with update_domain() + update() '
+    '(the integrator\'s sequence) before the next re-order; arrays are never emptied; in a periodic box the Ghost tag '
+    'belongs to the domain manager',
     'models spatially_order_particles as repaired by /repo commit a3ee3a5 (proposed_fixes/C17-reorder-align.diff); '
     'the pinned variant is kept as spatiallyOrderOrig with its counterexample theorem',
 ]
@@ -29,7 +33,10 @@ LEVEL_TEXT = ("Lean 4 theorems over every cell/key/octant assignment, every part
               "spatially_order_particles; the model is tied to the code on every run by exact differential execution "
               "against the scratch build of /repo for all 8 classes, and the property's own predicate (permutation, "
               "whole-particle multiset, real-first, brute-force neighbours after the update) is evaluated on the "
-              "implementation to produce replays.")
+              "implementation to produce replays. Half of the cases are histories on ONE search structure that add and "
+              "remove particles (also ghosts made by a periodic DomainManager) and add and remove properties (scalar / "
+              "strided, 5 C types) between the re-orderings; every particle carries a unique id in every property and "
+              "all oracles apply after every re-order for the current count and the current property set.")
 LEVEL_NOTE = ("Trusted: Lean kernel, axioms propext/Classical.choice/Quot.sound; the hand-written model (checked by the "
               "correspondence); the harness's recomputation of cell ids/keys/octants (it reproduces the implementation's "
               "index lists exactly, so it is checked too); cyarray and std::sort modelled. Neighbour exactness after the "
